@@ -96,18 +96,19 @@ func runVariant(ctx *report.Ctx, rf rules.RuleFunc, repo string, v load.Variant,
 			ctx.Undecided("checker-panic", v.Name, "", fmt.Sprintf("%v\n%s", r, debug.Stack()))
 		}
 	}()
-	p, err := load.Load(repo, v)
+	_ = rf
+	pkgs, nf, err := rules.RunOn(ctx, ctx.Prop, repo, v)
 	if err != nil {
-		ctx.Undecided("load", v.Name, "", err.Error())
 		return
 	}
-	var pkgs []string
-	for _, pk := range p.Pkgs {
-		pkgs = append(pkgs, load.Rel(pk.PkgPath))
+	want := 6
+	if v.Tags == "run" {
+		want = 13
 	}
-	*analysed = append(*analysed, map[string]interface{}{"variant": v.Name, "packages": pkgs, "functions": p.NFuncs})
-	f := facts.Build(p)
-	rf(&rules.Env{P: p, F: f, C: ctx})
+	if len(pkgs) != want {
+		ctx.Undecided("load", v.Name, "", fmt.Sprintf("expected %d packages in this variant, loaded %d: %v", want, len(pkgs), pkgs))
+	}
+	*analysed = append(*analysed, map[string]interface{}{"variant": v.Name, "packages": pkgs, "functions": nf})
 }
 
 func dumpLeaves(repo, name string) {
